@@ -66,8 +66,9 @@ def main(path, only_c11=False):
     o = [HEADER]
     o += emit_c11()
     if not only_c11:
-        from c04_gen_seg_prog import emit_prog
+        from c04_gen_seg_prog import emit_prog, emit_pat
         o += emit_prog()
+        o += emit_pat()
     o.append("end PV.C04.PR")
     open(path, "w").write("\n".join(o) + "\n")
 
